@@ -10,6 +10,9 @@ import time
 import common as C
 
 
+UNTRANSLATED_BASELINE = {'all_registers.rgnr.RGNR.get_region', 'all_registers.rgnr.RGNR.set_region'}
+
+
 class Unit:
     """One verified unit of a property.
     theorems : names in Props/<pid>.v that cover this unit
@@ -81,7 +84,11 @@ def run_check(pid, units, tier, seed, props_files=None, default_imports='', leve
     for u in units:
         st = 'full'
         why = None
-        missing = [n for n in u.needs if not fn_status.get(n, {}).get('ok', False)]
+        missing = [n for n in u.needs if n != '*' and not fn_status.get(n, {}).get('ok', False)]
+        if '*' in u.needs:
+            # the unit is about the whole emulator: any function py2v can no longer translate (beyond the two unused RGNR
+            # accessors that never translated) leaves part of the code without a model
+            missing += [n for n, v in fn_status.items() if not v.get('ok', False) and n not in UNTRANSLATED_BASELINE]
         if not u.theorems and not missing and ok_gen:
             st = 'correspondence-only'
         elif not ok_gen or missing:
